@@ -1,6 +1,6 @@
 # C20 — health reporting follows token state with the configured hysteresis
-import json
-from vlib.common import Hex
+import json, os, concurrent.futures
+from vlib.common import Hex, run as _run, GOENV
 
 SLACK = 400   # ms, must match drv c20
 INTERVAL = 1000
@@ -13,14 +13,212 @@ def case_val(c):
         rounds.append([[1 if o == 0 else 0 for o in r["outcomes"]], t, [t, t + 3 * INTERVAL - SLACK, t + 3 * INTERVAL + SLACK]])
     return [c["n"], c["disabled"], INTERVAL, 0, rounds]
 
+# ---------------------------------------------------------------- concurrent scenarios (drv c20conc)
+MARGIN = 200      # ms around the three-interval line inside which a measured age decides nothing
+SHARDS = 4
+
+def conc_drive(ctx, args_list, seed=None):
+    """run the c20conc command once per argument list, each with its own scratch directory, in parallel"""
+    def one(k_args):
+        k, args = k_args
+        scr = os.path.join(ctx.scratch, "drv-conc-%d" % k)
+        os.makedirs(scr, exist_ok=True)
+        cmd = [ctx.drv_path(), "-seed", str(seed if seed is not None else ctx.seed), "-tier", ctx.tier, "-scratch", scr, "c20conc"] + args
+        rc, out, err, dt = _run(cmd, timeout=600, env=GOENV)
+        return rc, out, err
+    with concurrent.futures.ThreadPoolExecutor(max_workers=len(args_list)) as ex:
+        res = list(ex.map(one, enumerate(args_list)))
+    cases, errs = [], []
+    for rc, out, err in res:
+        if rc != 0:
+            errs.append(err[-600:])
+        for l in out.splitlines():
+            if l.strip():
+                c = json.loads(l)
+                c["log"] = c.get("log") or []
+                c["script"] = c.get("script") or []
+                cases.append(c)
+    cases.sort(key=lambda c: c["id"])
+    return cases, errs
+
+def conc_oracle(c):
+    """MODEL-FREE, from the property text.  Walks the measured log; for every GET /health decides what the statement
+    demands: failure exactly when disabled, or no check COMPLETED for three intervals, or the most recent N completed
+    checks all failed.  A check is complete when the ping of its last token has returned.  Also: every query gets an
+    answer while a ping is in flight; nothing is pinged once Close has been called; Close returns, and not while a ping
+    is in flight.  Returns (problems, judged, skipped, per-query expectations)."""
+    interval = 1000
+    problems, expect = [], []
+    offset = 0.0                       # time that passed by back-dating healthLastPing
+    last_done = None                   # virtual time of the last completed check
+    trailing = 0                       # most recent consecutive failed checks
+    cur = None                         # outcomes of the check in flight
+    judged = skipped = 0
+    closed = False
+    for i, e in enumerate(c["log"]):
+        op = e["op"]
+        vt = e.get("t", 0.0) + offset
+        if last_done is None:
+            last_done = (e.get("t", 0.0) if c["loop"] else -float(c["age0_ms"]))
+        if op == "begin":
+            cur = []
+            if c["tokens"] == 0:
+                last_done, trailing, cur = vt, 0, None
+        elif op == "ping":
+            if e.get("after_close"):
+                problems.append(("C20:ping-after-close", "a token was pinged after Close had been called (log entry %d)" % i))
+            if cur is not None:
+                cur.append(bool(e.get("ok")))
+                if len(cur) == c["tokens"]:
+                    trailing = 0 if all(cur) else trailing + 1
+                    last_done, cur = vt, None
+                elif closed:
+                    cur = None         # the round is abandoned: it never completes
+        elif op == "age" and not e.get("blocked"):
+            offset += e["d"]
+        elif op == "close":
+            closed = True
+        elif op == "close_state":
+            if e.get("returned") and e.get("in_flight"):
+                problems.append(("C20:close-did-not-wait", "Close returned while a token ping was still in flight"))
+        elif op == "close_returned":
+            if not e.get("returned"):
+                problems.append(("C20:close-hangs", "Close did not return within 3 s after the ping in flight had returned"))
+        elif op == "query":
+            if e.get("blocked") or not e.get("code"):
+                key = "C20:health-blocked-by-token-check" if e.get("in_flight") else "C20:health-no-answer"
+                problems.append((key, "GET /health got no answer within 1500 ms%s (log entry %d)" %
+                                 (" while a token ping was in flight" if e.get("in_flight") else "", i)))
+                expect.append(None)
+                continue
+            age = vt - last_done
+            tripped = trailing >= c["n"]
+            if c["disabled"] or tripped:
+                want = 503
+            elif abs(age - 3 * interval) < MARGIN:
+                want = None
+            else:
+                want = 503 if age > 3 * interval else 200
+            expect.append(want)
+            if want is None:
+                skipped += 1
+                continue
+            judged += 1
+            if e["code"] != want:
+                problems.append(("C20:conc-wrong-answer", "GET /health = %d, the statement demands %d (disabled=%s, last completed check %.0f ms ago, "
+                                 "%d most recent checks failed, N=%d, check in flight=%s; log entry %d)" %
+                                 (e["code"], want, c["disabled"], age, trailing, c["n"], bool(e.get("in_flight")), i)))
+    if c.get("aborted") and "healthMu" in c["aborted"] and not c["aborted"].startswith("not run"):
+        problems.append(("C20:health-mutex-stuck", c["aborted"]))
+    return problems, judged, skipped, expect
+
+def conc_val(c):
+    """the measured log as a schedule of the model (times in whole ms)"""
+    now0 = 0
+    t0 = -c["age0_ms"]
+    if c["loop"]:
+        b = [e for e in c["log"] if e["op"] == "begin"]
+        t0 = now0 = int(round(b[0]["t"])) if b else 0
+    acts, clock, offset = [], now0, 0
+    for e in c["log"]:
+        op = e["op"]
+        t = int(round(e.get("t", 0.0))) + offset
+        if op in ("begin", "ping", "query", "close") and t > clock:
+            acts.append([0, t - clock])
+            clock = t
+        if op == "begin":
+            acts.append([1])
+        elif op == "ping":
+            acts.append([2, 1 if e.get("ok") else 0])
+        elif op == "query":
+            acts.append([3])
+        elif op == "close":
+            acts.append([4])
+        elif op == "age" and not e.get("blocked"):
+            acts.append([0, e["d"]])
+            clock += e["d"]
+            offset += e["d"]
+    return [-1, c["n"], c["disabled"], 1000, c["tokens"], t0, now0, acts]
+
+def conc_check(ctx, st, cases, errs, cov):
+    for e in errs:
+        ctx.violation("C20:driver-crash-conc", "c20conc driver failed: " + e[-400:], {"stderr": e}, False)
+    reported = {}
+    judged = skipped = slow = queries = in_flight_q = 0
+    expects = {}
+    for c in cases:
+        if (c.get("aborted") or "").startswith("not run"):
+            continue
+        problems, j, sk, expect = conc_oracle(c)
+        expects[c["id"]] = expect
+        judged += j
+        skipped += sk
+        qs = [e for e in c["log"] if e["op"] == "query"]
+        queries += len(qs)
+        slow += sum(1 for e in qs if e.get("slow") and e.get("code"))
+        in_flight_q += sum(1 for e in qs if e.get("in_flight"))
+        for key, detail in problems:
+            reported[key] = reported.get(key, 0) + 1
+            if reported[key] <= 2:
+                ctx.violation(key, "scenario %s (N=%d, %d tokens, disabled=%s, last check %d ms old at start): %s" %
+                              (c["name"], c["n"], c["tokens"], c["disabled"], c["age0_ms"], detail),
+                              {"conc_cases": [c], "rerun": ["c20conc", "only", str(c["id"])], "script": c["script"]})
+    n_corr = 0
+    flags = None
+    if st["model_ok"] and cases:
+        live = [c for c in cases if not (c.get("aborted") or "").startswith("not run")]
+        res = ctx.run_model([conc_val(c) for c in live])
+        understood = True
+        for c, r in zip(live, res):
+            obs, sobs, flags, late, stuck, published = r
+            if not (flags[0] and flags[5]):
+                # the lock analysis does not recognise the shape of healthCheck / Healthy any more: the dynamic model runs
+                # on worst-case plans and predicts nothing; the broken obligation is reported by proof_verdict
+                if understood:
+                    ctx.notes.append("lock analysis does not understand the current healthCheck/Healthy (flags %s): concurrent model comparison skipped" % (flags,))
+                understood = False
+                continue
+            qs = [e for e in c["log"] if e["op"] == "query"]
+            expect = expects.get(c["id"], [])
+            bad = None
+            if len(obs) != len(qs):
+                bad = "model answered %d queries, the log has %d" % (len(obs), len(qs))
+            else:
+                for k, (m, e) in enumerate(zip(obs, qs)):
+                    if k < len(expect) and expect[k] is None and e.get("code"):
+                        continue      # measured age too close to the three-interval line
+                    m_code = 0 if m[0] == 0 else (200 if m[1] else 503)
+                    i_code = e.get("code") or 0
+                    if m_code != i_code:
+                        bad = "query %d: model %s, implementation %s" % (k, m_code or "blocked", i_code or "no answer")
+                        break
+            late_obs = sum(1 for e in c["log"] if e["op"] == "ping" and e.get("after_close"))
+            if bad is None and (late > 0) != (late_obs > 0):
+                bad = "pings started after Close: model %d, implementation %d" % (late, late_obs)
+            if bad:
+                n_corr += 1
+                if n_corr <= 2:
+                    ctx.violation("C20:correspondence-conc", "scenario %s: %s" % (c["name"], bad),
+                                  {"conc_cases": [c], "model": r, "broken": "correspondence C20.Run (run_conc)"}, False)
+    cov["concurrent"] = {"scenarios": len(cases), "queries": queries, "queries_with_ping_in_flight": in_flight_q, "judged_by_oracle": judged,
+                         "skipped_near_three_interval_line": skipped, "answered_slowly": slow, "oracle_problems": reported,
+                         "model_mismatches": n_corr, "model_plan_flags": flags,
+                         "sample": [{"name": c["name"], "script": c["script"], "log": c["log"][:8]} for c in cases[2:3]]}
+    return queries
+
 def run(ctx, replay=None):
     st = ctx.prepare(["C20_gen"], ["C20"], "C20.Run")
     if not st["harness_ok"]:
         return ctx.finish("proof", ctx.proof_coverage([], ["server:Server.health", "server:Server.Healthy"]), [])
+    conc_cases, conc_errs = [], []
     if replay:
-        cases = json.load(open(replay)).get("cases", [])
+        rp = json.load(open(replay))
+        cases = rp.get("cases", [])
         close = None
+        if rp.get("conc_cases"):
+            conc_cases, conc_errs = conc_drive(ctx, [["only", str(c["id"])] for c in rp["conc_cases"]], seed=rp.get("seed"))
     else:
+        conc_cases, conc_errs = conc_drive(ctx, [[str(k), str(SHARDS)] for k in range(SHARDS)])
         rc, out, err = ctx.drv(["c20"])
         if rc != 0:
             ctx.violation("C20:driver-crash", "driver failed: " + err[-400:], {"stderr": err[-2000:]}, False)
@@ -63,17 +261,24 @@ def run(ctx, replay=None):
             ctx.violation("C20:correspondence-close", "loop exit differs from the generated select-arm table", {"close": close}, False)
         if close["checks_after_close"] > 0:
             ctx.violation("C20:close-keeps-checking", "token checks ran after Close", {"close": close})
+    conc_cov = {}
+    conc_queries = conc_check(ctx, st, conc_cases, conc_errs, conc_cov)
     ctx.proof_verdict()
-    cov = ctx.proof_coverage(["srcgen: Healthy translated whole; healthCheck conditions/assignments; select-arm exit table of healthCheckLoop",
+    cov = ctx.proof_coverage(["srcgen: Healthy translated whole; healthCheck conditions/assignments; select-arm exit table of healthCheckLoop; lock/ping/state event lists of healthCheck, Healthy, serveHealth, pingOne; Close/startHealthCheck join of the loop",
+                              "harness cmd/drv c20conc: real Handler() GET /health while the real healthCheck / healthCheckLoop waits in a scripted token Ping; Close during a ping",
+                              "sections that hold healthMu and contain no ping are treated as instantaneous; other calls inside them (log, metrics, time.Now) are assumed not to block",
                               "harness cmd/drv c20: real Server.healthCheck / Handler() GET /health with scripted fake tokens (hook server/verif_hooks.go)",
                               "timer firing and goroutine scheduling are observed, not modelled"], ["server:Server."])
     kinds = {}
     for c in cases:
         k = "%s/N=%d/tok=%d/len=%d" % (c["kind"], c["n"], c["tokens"], len(c["rounds"]))
         kinds[k] = kinds.get(k, 0) + 1
-    cov.update({"evaluations": sum(3 * len(c["rounds"]) + 1 for c in cases) + (1 if close else 0), "distinct_nontrivial": len(nontrivial),
-                "rule": "all histories of ok/failed rounds up to length 6 (quick) or 9 (thorough) for N in {1,2,3,5}; random multi-token histories to length 40 with disable flag; 3 queries per round (fresh, just inside, just outside 3 intervals); non-trivial = distinct history with >= N rounds and at least one failure",
+    cov.update(conc_cov)
+    nontrivial |= set("conc:" + json.dumps(c["script"]) for c in conc_cases if any(e["op"] == "query" and e.get("in_flight") for e in c["log"]))
+    cov.update({"evaluations": sum(3 * len(c["rounds"]) + 1 for c in cases) + (1 if close else 0) + conc_queries, "distinct_nontrivial": len(nontrivial),
+                "rule": "all histories of ok/failed rounds up to length 6 (quick) or 9 (thorough) for N in {1,2,3,5}; random multi-token histories to length 40 with disable flag; 3 queries per round (fresh, just inside, just outside 3 intervals); non-trivial = distinct history with >= N rounds and at least one failure; concurrent: 15 fixed scenarios (slow token first/middle/last, real-time and back-dated staleness, timeout, disabled, no tokens, Close during a ping) + 24 (quick) / 200 (thorough) random scripts, every query through the real Handler with a 1500 ms answer deadline; non-trivial = script with a query while a ping is in flight",
                 "samples": [{"n": c["n"], "rounds": c["rounds"][:4]} for c in cases[40:42]],
                 "exhaustive": True, "close_observation": close, "spec_mismatches": n_spec, "model_mismatches": n_corr,
                 "input_distribution": dict(sorted(kinds.items())[:40])})
-    return ctx.finish("proof", cov, ["time.Since granularity: staleness probed at 3 intervals +/- 400 ms", "Go scheduler/timers not modelled"])
+    return ctx.finish("proof", cov, ["time.Since granularity: staleness probed at 3 intervals +/- 400 ms", "Go scheduler/timers not modelled: the schedule of the concurrent model is arbitrary, which covers them",
+                                     "queries whose measured age is within 200 ms of three intervals are not judged"])
